@@ -445,6 +445,9 @@ func RacePassMain(tier string, only string) int {
 }
 
 func raceBinary() string {
+	if b := os.Getenv("VERIF_RACE_BIN"); b != "" {
+		return b // tools/mutant_ov.sh: a race binary built from an overlaid tree
+	}
 	d := os.Getenv("VERIF_DIR")
 	if d == "" {
 		d = "/verif"
